@@ -110,8 +110,9 @@ PROPS = {
         undecided=['bit-identity of floating-point results across chunkings']),
     'C13': dict(
         rules=[integrator.alt_freeze, integrator.es_copy, integrator.es_2drows,
-               meas.meas_shape],
-        decided=['every writer of the velocity carrier stores vertical velocity zero and altitude '
+               meas.meas_shape, meas.meas_noise],
+        decided=['the 2-row noise covariance is the north/east block of the 3-row one',
+                 'every writer of the velocity carrier stores vertical velocity zero and altitude '
                  'is copied (constructor, kernel, set_pva)',
                  '2-D correction returns input altitude and vertical velocity',
                  'down / VD rows of the 2-D output transform are identically zero (zero reported '
